@@ -240,12 +240,20 @@ func (st *State) safetyOn() bool {
 	return c != nil && c.Checks["safety"]
 }
 
+// boundsOn: "checks bounds" asks for the run-time checks that depend on data (index, slice, division, allocation size,
+// type assertion) but not for nil dereferences or the @SAFETY preconditions of callees - for functions whose
+// non-nil-ness facts live in structures shared between goroutines.
+func (st *State) boundsOn() bool {
+	c := st.frames[0].contract
+	return c != nil && c.Checks["bounds"]
+}
+
 // guard asserts (safety on) or assumes (safety off) a run-time condition that Go checks with a panic.
 func (st *State) guard(kind, cond string, pos token.Pos) {
 	if cond == "true" {
 		return
 	}
-	if st.safetyOn() {
+	if st.safetyOn() || (st.boundsOn() && kind != "nil" && kind != "mapnil") {
 		fr := st.top()
 		name := fmt.Sprintf("%s.safety.%s@%s", st.e.curFunc, kind, shortPos(posStr(st.e, pos)))
 		if len(st.frames) > 1 {
